@@ -191,17 +191,23 @@ fn build_sink(sh: &Arc<Shared>, cap: Option<usize>, eh: bool) -> QueuingMetricSi
             None => QueuingMetricSink::from(GateSink(sh.clone())),
         };
     }
+    // the two builder options are given in either order (every second builder: handler first)
+    let handler_first = FLIP.fetch_add(1, Ordering::Relaxed) % 2 == 1;
     let mut b = QueuingMetricSink::builder();
-    if let Some(c) = cap {
-        b = b.with_capacity(c);
-    }
-    if eh {
-        let n_eh = sh.n_eh.clone();
-        b = b.with_error_handler(move |e: io::Error| {
-            tr().ev(json!({"ev":"eh","msg":e.to_string(),"tid":tid()}));
-            n_eh.fetch_add(1, Ordering::SeqCst);
-            point("w.eh", 0, 0);
-        });
+    for step in 0..2 {
+        let do_cap = (step == 0) != handler_first;
+        if do_cap {
+            if let Some(c) = cap {
+                b = b.with_capacity(c);
+            }
+        } else if eh {
+            let n_eh = sh.n_eh.clone();
+            b = b.with_error_handler(move |e: io::Error| {
+                tr().ev(json!({"ev":"eh","msg":e.to_string(),"tid":tid()}));
+                n_eh.fetch_add(1, Ordering::SeqCst);
+                point("w.eh", 0, 0);
+            });
+        }
     }
     b.build(GateSink(sh.clone()))
 }
@@ -277,12 +283,40 @@ fn do_drop(sink: QueuingMetricSink, h: u64) -> bool {
     }
 }
 
+/// the handle is dropped because the thread that owns it unwinds from a panic (C09: "dropping a handle", however it happens)
+fn do_drop_unwinding(sink: QueuingMetricSink, h: u64) -> bool {
+    let done = Arc::new(AtomicBool::new(false));
+    let d2 = done.clone();
+    let t = std::thread::spawn(move || {
+        tr().ev(json!({"ev":"dropbegin","h":h,"tid":tid(),"unwinding":true}));
+        let r = catch_unwind(AssertUnwindSafe(move || {
+            let _owned = sink;
+            panic!("the owner of the handle panics");
+        }));
+        let _ = r;
+        tr().ev(json!({"ev":"dropend","h":h,"panicked":false}));
+        d2.store(true, Ordering::SeqCst);
+    });
+    if wait_until(Duration::from_secs(10), || done.load(Ordering::SeqCst)) {
+        let _ = t.join();
+        true
+    } else {
+        tr().ev(json!({"ev":"drophang","h":h}));
+        false
+    }
+}
+
 fn sample(sink: &QueuingMetricSink, ev: &str) {
     tr().ev(json!({"ev":"sbegin"}));
-    let q = sink.queued();
-    let s = sink.submitted();
-    let d = sink.drained();
-    let p = sink.panics();
+    let r = catch_unwind(AssertUnwindSafe(|| (sink.queued(), sink.submitted(), sink.drained(), sink.panics())));
+    let (q, s, d, p) = match r {
+        Ok(x) => x,
+        Err(_) => {
+            // reading the counters panicked (C20; for queued() also C15: "never wraps around")
+            tr().ev(json!({"ev":"spanic","msg":last_panic()}));
+            return;
+        }
+    };
     // a wrapped-around u64 does not fit TLC's integers: clamp, the rule "q <= s" still fires
     let c = |x: u64| x.min(2_000_000_000);
     tr().ev(json!({"ev":ev,"s":c(s),"d":c(d),"q":c(q),"p":c(p)}));
@@ -436,7 +470,11 @@ pub fn stress(a: &Args) {
         while !live.is_empty() {
             let i = rng.random_range(0..live.len());
             let (s, h) = live.swap_remove(i);
-            do_drop(s, h);
+            if run % 3 == 1 {
+                do_drop_unwinding(s, h);
+            } else {
+                do_drop(s, h);
+            }
         }
         // a wrapped sink that stays blocked for a while AFTER the last drop (C09: whatever the wrapped sink does,
         // for every occupancy): the stop marker must still arrive once there is room
